@@ -94,8 +94,11 @@ def cases(tier, base_seed):
             nc = rng.randint(2, 6)
             obj = rng.choice(CLIENT_OBJECTS)
             ops = []
+            # a third of the cases: every client calls the SAME operation (with its own box) -
+            # many threads hammering one method is the usual way such objects are shared
+            same = rng.choice(_client_ops(obj)) if rng.random() < 0.35 else None
             for _ in range(nc):
-                ops.append([{"op": rng.choice(_client_ops(obj)), "box": gen.gen_box(rng)}
+                ops.append([{"op": same or rng.choice(_client_ops(obj)), "box": gen.gen_box(rng)}
                             for _ in range(rng.randint(1, 3))])
             if obj == "dask_store":
                 ops = [o[:1] for o in ops[:3]]        # one (expensive) op per client, <= 3 clients
